@@ -6,6 +6,8 @@ from util import (origins, canon, call_result_users, question_propagated, local_
                   ok_return_blocks, short, TRY_BRANCH, FROM_RESIDUAL)
 
 FF = "pasfmt_orchestrator::file_formatter::FileFormatter::"
+# functions the rules name themselves: never spliced into their callers by Program.inlined()
+ORCH_KEEP = ("write_file", "write", "write_stdout", "decode_file", "encode", "encode_utf16le", "encode_utf16be", "encode_utf16", "exec_format", "format_files", "format_files_to_stdout", "check_files", "check_formatting", "output_new_cursors", "expand_paths")
 FILE_FORMATTER_FILE = "orchestrator/src/file_formatter.rs"
 
 FILE_EFFECTS = {
@@ -62,6 +64,11 @@ def c16a(prog, rep):
     R = "C16.a"
     allowed = {FF + "format_files", FF + "format_files::{closure#0}"}
     eff = effect_sites(prog)
+    import layout as _layout
+    acc_helpers = _layout.helper_closure(prog, sorted({c.body.npath for c, _ in eff}), sorted(allowed))
+    for k, v in acc_helpers.items():
+        rep.note("file effects: %s accepted (%s)" % (short(k), v))
+    allowed = allowed | set(acc_helpers)
     counts = {}
     for c, why in eff:
         counts[why] = counts.get(why, 0) + 1
@@ -108,7 +115,7 @@ def c16a(prog, rep):
 
 def c16b(prog, rep):
     R = "C16.b"
-    b = prog.body(FF + "format_files::{closure#0}")
+    b = prog.inlined(FF + "format_files::{closure#0}", keep=ORCH_KEEP)
     if not rep.check(b is not None, R, "anchor:format_files-closure", "format_files closure not found"):
         return
     seek = b.calls_to("std::io::Seek::seek")
@@ -127,9 +134,12 @@ def c16b(prog, rep):
               "write_file is not guarded by the success of seek", where=W.where())
     rep.check(any("write_file(" in f[0] and f[1] == "is" and f[2] == ("Continue",) for f in fl), R, "set_len-after-write-ok",
               "set_len is not guarded by the success of write_file", where=L.where())
+    from util import ERR_ADAPTERS as _EA, TRY_BRANCH as _TB
+    _ret = Origins(b, identity=set(_EA) - {_TB}).of_place({"l": 0, "p": []})
     for nm, c in (("seek", S), ("write_file", W), ("set_len", L)):
-        rep.check(question_propagated(b, c), R, "propagated:" + nm, "the result of %s is not `?`-propagated" % nm, where=c.where(),
-                  instance={"call": nm, "propagation": "?"})
+        returned = any(x[0] == "call" and x[1] == c.bb for x in _ret)
+        rep.check(question_propagated(b, c) or returned, R, "propagated:" + nm, "the result of %s is neither `?`-propagated nor returned as the closure's result" % nm, where=c.where(),
+                  instance={"call": nm, "propagation": "?" if not returned else "returned"})
     # seek(Start(0))
     og = origins(b)
     so = og.of_operand(S.args[1])
@@ -161,7 +171,7 @@ def c16b(prog, rep):
         skip = False
         from panic import dominating_conditions
         for c in dominating_conditions(b, okb):
-            if c[0] == "call" and c[1].endswith("eq") and c[3] is True:
+            if c[0] == "call" and ((c[1].endswith("::eq") and c[3] is True) or (c[1].endswith("::ne") and c[3] is False)):
                 a0 = og.of_operand(c[2][0])
                 a1 = og.of_operand(c[2][1])
                 if any(x[0] == "param" and x[1] == 4 and "contents" in x[2] for x in a0) and any(x[0] == "param" and x[1] == 5 for x in a1):
@@ -171,14 +181,20 @@ def c16b(prog, rep):
         rep.check(after_len or skip, R, "ok-return:bb%d" % okb, "format_files closure can report success without writing and without the text being unchanged",
                   where="%s:%d" % (b.file, b.line), instance={"ok_return": "skip-arm" if skip else "after set_len"})
     rep.floor(R, "unchanged-skip arm comparing decoded contents with formatted output", skip_ok, 1)
-    rep.floor(R, "Ok returns", len(ok_return_blocks(b)), 2)
+    # a success can also be reported by handing on the Result of set_len itself (`file.set_len(n).with_context(..)` as the tail expression)
+    from util import ERR_ADAPTERS, TRY_BRANCH
+    ret_o = Origins(b, identity=set(ERR_ADAPTERS) - {TRY_BRANCH}).of_place({"l": 0, "p": []})
+    passes_set_len = any(x[0] == "call" and x[1] == L.bb for x in ret_o)
+    other_calls = [x for x in ret_o if x[0] == "call" and x[1] != L.bb and not x[2].endswith("from_residual") and not x[2].endswith("FromResidual::from_residual")]
+    rep.check(not other_calls, R, "returned-results", "the format_files closure hands on the result of %s as its own" % sorted(x[2] for x in other_calls), instance={"returned_call_results": sorted(x[2].split("::")[-1] for x in ret_o if x[0] == "call")})
+    rep.floor(R, "Ok returns", len(ok_return_blocks(b)) + (1 if passes_set_len else 0), 2)
 
 
 def unchanged_skip_is_exact(prog, rep, R):
     """Files mode leaves a file unwritten only when the decoded text and the formatted text are equal as whole strings (`==`): any weaker
     notion of `unchanged` (line-wise, trimmed, length) would leave line terminators, blanks or characters as they were in the input."""
     from panic import dominating_conditions
-    b = prog.body(FF + "format_files::{closure#0}")
+    b = prog.inlined(FF + "format_files::{closure#0}", keep=ORCH_KEEP)
     if not rep.check(b is not None, R, "anchor:format_files-closure", "format_files closure not found"):
         return
     og = origins(b)
@@ -189,7 +205,7 @@ def unchanged_skip_is_exact(prog, rep, R):
             continue
         skip = False
         for c in dominating_conditions(b, okb):
-            if c[0] == "call" and c[1].endswith("eq") and c[3] is True and (c[1].endswith("PartialEq::eq") or "str" in c[1] or "String" in c[1] or c[1].endswith("::eq")):
+            if c[0] == "call" and ((c[1].endswith("::eq") and c[3] is True) or (c[1].endswith("::ne") and c[3] is False)):
                 a0, a1 = og.of_operand(c[2][0]), og.of_operand(c[2][1])
                 if any(x[0] == "param" and x[1] == 4 and "contents" in x[2] for x in a0) and any(x[0] == "param" and x[1] == 5 for x in a1):
                     skip = True
@@ -201,7 +217,7 @@ def unchanged_skip_is_exact(prog, rep, R):
 
 def c16c(prog, rep):
     R = "C16.c"
-    b = prog.body(FF + "write")
+    b = prog.inlined(FF + "write", keep=ORCH_KEEP)
     if not rep.check(b is not None, R, "anchor:write", "FileFormatter::write not found"):
         return
     was = b.calls_to("std::io::Write::write_all")
@@ -225,6 +241,12 @@ def c16c(prog, rep):
                             sp = source_place(b, d[3]["rv"]["op"])
                             if sp and not sp["p"]:
                                 acc = sp["l"]
+    if acc is None or len(okb) != 1 or not [x for bb2, i2, x in b.stmts() if x["k"] == "assign" and x["dst"]["l"] == acc and not x["dst"]["p"] and x["rv"]["k"] == "use" and x["rv"]["op"].get("int") == 0]:
+        # no running counter: the returned length may be written as one sum over everything that is written
+        if _static_length_sum(prog, rep, R, b, was, okb):
+            for w in was:
+                rep.check(question_propagated(b, w), R, "propagated:write_all:%s" % canon(b, w.args[1]), "a write_all result is not `?`-propagated", where=w.where())
+            return
     if not rep.check(acc is not None and len(okb) == 1, R, "ok-payload-is-accumulator", "write() no longer returns Ok(<byte counter> as u64) from a single success exit"):
         return
     stores = [(bb, i, s) for bb, i, s in b.stmts() if s["k"] == "assign" and s["dst"]["l"] == acc and not s["dst"]["p"]]
@@ -258,6 +280,54 @@ def c16c(prog, rep):
     rep.floor(R, "write_all calls accounted", matched, 2)
     for w in was:
         rep.check(question_propagated(b, w), R, "propagated:write_all:%s" % canon(b, w.args[1]), "a write_all result is not `?`-propagated", where=w.where())
+
+
+def _static_length_sum(prog, rep, R, b, was, okb):
+    """`Ok((len(a) + len(b) ..) as u64)` with exactly one term per write_all argument (an optional buffer may be counted as
+    `opt.map_or(0, len)`); returns False if the shape is not this one (nothing reported then)."""
+    from table import split_call
+    if len(okb) != 1:
+        return False
+    payload = None
+    for s in b.blocks[okb[0]]["stmts"]:
+        if s["k"] == "assign" and s["dst"]["l"] == 0 and s["rv"]["k"] == "aggregate":
+            payload = canon(b, s["rv"]["ops"][0])
+    if payload is None:
+        return False
+
+    def terms(x):
+        sc = split_call(x)
+        if sc and sc[0] == "Add" and len(sc[1]) == 2:
+            return terms(sc[1][0]) + terms(sc[1][1])
+        return [x]
+    import re as _re
+    pnames = {b.locals[i].get("name"): "arg%d" % i for i in range(1, b.arg_count + 1) if b.locals[i].get("name")}
+
+    def nn(x):
+        # a parameter copied into a multi-definition local keeps the parameter's source name: spell it as the parameter
+        return _re.sub(r"var:(\w+)", lambda m: pnames.get(m.group(1), m.group(0)), x)
+    ts = [nn(t) for t in terms(payload)]
+    want = []
+    for w in was:
+        wa = nn(canon(b, w.args[1]))
+        alts = {"len(%s)" % wa}
+        if wa.endswith("@Some.0"):
+            base = wa[:-len("@Some.0")]
+            alts |= {"map_or(%s,0,fn:len)" % base, "map_or(%s,0,closure{})" % base}
+        want.append((wa, alts))
+    unmatched = list(ts)
+    ok = True
+    for wa, alts in want:
+        hit = [t for t in unmatched if t in alts or any(t == a for a in alts)]
+        if not hit:
+            ok = False
+            break
+        unmatched.remove(hit[0])
+    if not ok or unmatched:
+        return False
+    rep.ok(R, {"returned_length": payload, "form": "one sum with one term per write_all argument", "write_all_args": [wa for wa, _ in want]})
+    rep.floor(R, "write_all calls accounted", len(want), 2)
+    return True
 
 
 def c16d(prog, rep):
